@@ -281,8 +281,9 @@ def main(argv):
         except leanio.ToolError as e:
             ev["coverage"]["leanchecker"] = f"not run: {e}"
     ev["wall_s"] = round(time.time() - t0, 2)
-    os.makedirs(os.path.join(VERIF, "evidence"), exist_ok=True)
-    with open(os.path.join(VERIF, "evidence", f"{pid}.json"), "w") as f:
+    evdir = os.environ.get("VERIF_EVIDENCE_DIR") or os.path.join(VERIF, "evidence")   # seeded-change runs keep the committed evidence untouched
+    os.makedirs(evdir, exist_ok=True)
+    with open(os.path.join(evdir, f"{pid}.json"), "w") as f:
         json.dump(ev, f, indent=1)
     for ln in lines:
         print(ln)
